@@ -101,35 +101,37 @@ func decodeControl(packet *ber.Packet) (Control, error) {
 	case 0:
 		// at least one child is required for a control type
 		return nil, fmt.Errorf("%s: at least one child is required for control type", op)
-	case 1:
-		// just type, no critically or value
+	case 1, 2, 3:
+		// the first child is always the control type
 		packet.Children[0].Description = "Control Type (" + ControlTypeMap[ControlType] + ")"
-		ControlType = packet.Children[0].Value.(string)
+		var ok bool
+		if ControlType, ok = packet.Children[0].Value.(string); !ok {
+			return nil, fmt.Errorf("%s: control type is not a string: %w", op, ErrInvalidParameter)
+		}
+	default:
+		// more than 3 children is invalid
+		return nil, fmt.Errorf("%s: more than 3 children is invalid for controls", op)
+	}
+	switch len(packet.Children) {
 	case 2:
-		packet.Children[0].Description = "Control Type (" + ControlTypeMap[ControlType] + ")"
-		ControlType = packet.Children[0].Value.(string)
-
 		// Children[1] could be criticality or value (both are optional)
 		// duck-type on whether this is a boolean
-		if _, ok := packet.Children[1].Value.(bool); ok {
+		if crit, ok := packet.Children[1].Value.(bool); ok {
 			packet.Children[1].Description = "Criticality"
-			Criticality = packet.Children[1].Value.(bool)
+			Criticality = crit
 		} else {
 			packet.Children[1].Description = "Control Value"
 			value = packet.Children[1]
 		}
 	case 3:
-		packet.Children[0].Description = "Control Type (" + ControlTypeMap[ControlType] + ")"
-		ControlType = packet.Children[0].Value.(string)
-
 		packet.Children[1].Description = "Criticality"
-		Criticality = packet.Children[1].Value.(bool)
+		var ok bool
+		if Criticality, ok = packet.Children[1].Value.(bool); !ok {
+			return nil, fmt.Errorf("%s: control criticality is not a boolean: %w", op, ErrInvalidParameter)
+		}
 
 		packet.Children[2].Description = "Control Value"
 		value = packet.Children[2]
-	default:
-		// more than 3 children is invalid
-		return nil, fmt.Errorf("%s: more than 3 children is invalid for controls", op)
 	}
 	switch ControlType {
 	case ControlTypeManageDsaIT:
@@ -154,9 +156,16 @@ func decodeControl(packet *ber.Packet) (Control, error) {
 		}
 		value = value.Children[0]
 		value.Description = "Search Control Value"
+		if len(value.Children) < 2 {
+			return nil, fmt.Errorf("%s: paging control value must have a size and a cookie: %w", op, ErrInvalidParameter)
+		}
 		value.Children[0].Description = "Paging Size"
 		value.Children[1].Description = "Cookie"
-		c.PagingSize = uint32(value.Children[0].Value.(int64))
+		pagingSize, ok := value.Children[0].Value.(int64)
+		if !ok {
+			return nil, fmt.Errorf("%s: paging size is not an integer: %w", op, ErrInvalidParameter)
+		}
+		c.PagingSize = uint32(pagingSize)
 		c.Cookie = value.Children[1].Data.Bytes()
 		value.Children[1].Value = c.Cookie
 		return c, nil
@@ -191,6 +200,9 @@ func decodeControl(packet *ber.Packet) (Control, error) {
 		for _, child := range sequence.Children {
 			if child.Tag == 0 {
 				// Warning
+				if len(child.Children) < 1 {
+					return nil, fmt.Errorf("%s: behera warning must have a least 1 child: %w", op, ErrInvalidParameter)
+				}
 				warningPacket := child.Children[0]
 				val, err := ber.ParseInt64(warningPacket.Data.Bytes())
 				if err != nil {
@@ -246,7 +258,11 @@ func decodeControl(packet *ber.Packet) (Control, error) {
 		c.ControlType = ControlType
 		c.Criticality = Criticality
 		if value != nil {
-			c.ControlValue = value.Value.(string)
+			controlValue, ok := value.Value.(string)
+			if !ok {
+				return nil, fmt.Errorf("%s: control value is not a string: %w", op, ErrInvalidParameter)
+			}
+			c.ControlValue = controlValue
 		}
 		return c, nil
 	}
